@@ -240,6 +240,6 @@ def recognise(toks, reader):
         tree = r.module()
         return ("ok", tree, r.missing)
     except Ill as e:
-        return ("ill", e.reason, None)
+        return ("ill", e.reason, r.i)      # r.i: index of the offending token
     except Ambiguous as e:
         return ("ambiguous", str(e), None)
